@@ -69,6 +69,11 @@ def run(ck):
     from . import c15
     cuts, impls, LS, RS = c15.collect_cuts(RuleView(ck, {}))
     c15.per_side_cuts(ck, "C04.10", cuts, impls, LS, RS)
+    ck.clause("C04.13", "label numbers of second-pass fragments refer to the labels of the whole query on both strands (as C02.5): a "
+                        "fragment numbered from its own start is reported against labels it was not scored on, and low-numbered labels "
+                        "are counted twice in a joined record")
+    from .c02 import numbering as _numbering
+    _numbering(ck, "C04.13")
     ck.clause("C04.12", "the label tables the cut is counted in hold every label of their map inside the segment - pairs and unpaired "
                         "labels of that side (as C15.8): otherwise a label unpaired in one segment and paired in the other is kept by "
                         "both and scored twice")
@@ -164,6 +169,23 @@ def wiring(ck):
         if not bound_fields:
             continue
         w = where(factory, node)
+        # (0) the component stores the configured value itself: a constructor that keeps `x or DEFAULT`, `abs(x)`, `max(x, 1)` ...
+        # works with another setting than the one given whenever the expression changes the value (a configured 0 is falsy)
+        init = p.lookup_method(cls, "__init__", None)
+        if init is not None and init.self_name and not cls.is_dataclass:
+            for pname in bound_fields:
+                for n in ast.walk(init.node):
+                    if isinstance(n, ast.Assign) and len(n.targets) == 1 and isinstance(n.targets[0], ast.Attribute) \
+                            and isinstance(n.targets[0].value, ast.Name) and n.targets[0].value.id == init.self_name \
+                            and not isinstance(n.value, ast.Name) \
+                            and any(isinstance(x, ast.Name) and x.id == pname for x in ast.walk(n.value)) \
+                            and isinstance(n.value, (ast.BoolOp, ast.IfExp, ast.Call, ast.BinOp, ast.UnaryOp)) \
+                            and not (isinstance(n.value, ast.Call) and ast.unparse(n.value.func) not in ("abs", "max", "min", "int", "round", "float")):
+                        ck.violation("C04.1", f"component:{cls.name}.__init__:{pname}:altered", where(init, n),
+                                     f"{cls.name} stores its parameter `{pname}` (the command-line value args.{bound_fields[pname]}) in "
+                                     "altered form: for some legitimate values (a configured 0 is falsy, a negative penalty has no abs) the "
+                                     "component works with another setting than the one given",
+                                     found=ast.unparse(n)[:140], required=f"self.{n.targets[0].attr} = {pname}")
         # (1) each bound field is a best match for its parameter among all Args fields
         for pname, f in bound_fields.items():
             n_bind += 1
